@@ -1,5 +1,5 @@
 """Specification growth beyond the listed properties (DESIGN §8 / §16.7): SYNC counter, TIME framing,
-active node search, store / restore, LSS identify services.  Not registered in MANIFEST.json (there
+active node search, store / restore, LSS identify services, load_configuration, CiA 402 homing / fault reset.  Not registered in MANIFEST.json (there
 is no listed property to report against); run manually: /venv/bin/python -m checks.extras"""
 import random
 import sys
@@ -16,7 +16,47 @@ def main():
     for r in val.rejects[:10]:
         print("EXTRA-REJECT", r.why, str(r.event)[:300])
     print(f"extras: {val.traces} traces, {val.events} events, {len(val.rejects)} rejected")
-    return 1 if val.rejects else 0
+    bad = len(val.rejects)
+    # load_configuration
+    cases = []
+    for i in range(120):
+        n = rng.randrange(0, 8)
+        cases.append({"seed": rng.randrange(1 << 30), "with_pdo": i % 3 == 0,
+                      "reacts": [rng.choice(["ok", "ok", "ok", "ro", "timeout", "abort"]) for _ in range(n)]})
+    res = run_cases("harness.drv_loadcfg:run_case", cases, jobs=8, timeout=120)
+    val = tlc.validate_traces("Trace_LoadCfg", res, cfg="Trace.cfg", jobs=4)
+    for r in val.rejects[:10]:
+        print("LOADCFG-REJECT", r.why, str(r.event)[:300], r.state[:200])
+    print(f"load_configuration: {val.traces} traces, {val.events} events, {len(val.rejects)} rejected")
+    bad += len(val.rejects)
+    # homing / is_homed / reset_from_fault: design model, then traces of the real node
+    mc = tlc.run_tlc("MC_Homing", "MC_Homing.cfg", workers=2, timeout=600)
+    print(f"MC_Homing: ok={mc.ok} distinct={mc.distinct}")
+    bad += 0 if mc.ok else 1
+    outcomes = ["ATTAINED", "TARGET REACHED", "INTERRUPTED", "ERROR VELOCITY IS NOT ZERO", "ERROR VELOCITY IS ZERO"]
+    inits = ["SWITCH ON DISABLED", "READY TO SWITCH ON", "SWITCHED ON", "OPERATION ENABLED", "QUICK STOP ACTIVE", "FAULT"]
+    cases = []
+    for init in inits:
+        for outcome in outcomes:
+            for delay in (0, 1, 5, 13, 40, 100000):
+                for mode0 in (0, 1, 6):
+                    cases.append({"init": init, "mode0": mode0, "supported": True, "delay": delay, "outcome": outcome,
+                                  "ops": [{"name": "homing", "restore": rng.random() < 0.5, "timeout": 2}]})
+        cases.append({"init": init, "mode0": 1, "supported": False, "delay": 0, "outcome": "ATTAINED",
+                      "ops": [{"name": "homing", "restore": False}]})
+        for mode0 in (0, 1, 6):
+            cases.append({"init": init, "mode0": mode0, "supported": True, "delay": 0, "outcome": "ATTAINED",
+                          "ops": [{"name": "reset"}, {"name": "is_homed", "restore": rng.random() < 0.5}]})
+            cases.append({"init": init, "mode0": mode0, "supported": True, "delay": 3, "outcome": rng.choice(outcomes),
+                          "ops": [{"name": "homing", "restore": False, "timeout": 2}, {"name": "is_homed", "restore": False},
+                                  {"name": "reset"}]})
+    res = run_cases("harness.drv_p402:run_homing", cases, jobs=8, timeout=120)
+    val = tlc.validate_traces("Trace_Homing", res, cfg="Trace.cfg", jobs=4)
+    for r in val.rejects[:10]:
+        print("HOMING-REJECT", r.why, str(r.event)[:200], str(cases[r.index])[:300])
+    print(f"homing: {val.traces} traces, {val.events} events, {len(val.rejects)} rejected")
+    bad += len(val.rejects)
+    return 1 if bad else 0
 
 
 if __name__ == "__main__":
